@@ -105,7 +105,10 @@ def effects_use_callers_txn(ctx, s, root, only_under=None, allow_own_txn=()):
     n_eff = 0
     n_pass = 0
     allow_own = {ctx.fn(n).path for n in allow_own_txn} | {rootfn.path}
+    wrappers = {ctx.fn(n).path for n in ("pocket_db::Lmdb::write_txn", "pocket_db::Store::write_txn")}
     for p in sorted(scope):
+        if p in wrappers:
+            continue    # thin wrappers around env.write_txn(); calls *to* them are what counts
         g = ctx.F.fns[p]
         an = ctx.E.an(g)
         own = own_write_txn_locals(ctx, s, g) if p in allow_own else set()
@@ -191,3 +194,62 @@ def error_paths_do_not_commit(ctx, s, root):
     else:
         s.add("S-TXN", fn, "commit-last", name, fn.sp, PROVED, "no index or store call follows the commit")
     return ok_edges
+
+
+def results_not_dropped(ctx, s, root, within_prefix="pocket_db::"):
+    """error discipline: no Result returned by an in-crate or storage-layer call in the closure of
+    `root` is discarded (it is propagated with `?`, matched on, returned or passed on)"""
+    from ..sym import walk
+    rootfn = ctx.fn(root)
+    scope = ctx.G.reachable([rootfn.path], within=lambda p: p.startswith(within_prefix))
+    n = 0
+    for p in sorted(scope):
+        g = ctx.F.fns[p]
+        an = ctx.E.an(g)
+        uses = set()
+
+        def note(v, top=True):
+            """record call values nested inside v (a bare copy of the value is not a use)"""
+            def f(x):
+                if x[0] == "call" and x is not v:
+                    uses.add(x)
+            walk(v, f)
+            if not top and v[0] == "call":
+                uses.add(v)
+
+        for v in an.stmt_val.values():
+            note(v)
+        arg_uses = set()
+        for b, info in an.term.items():
+            if info["kind"] == "call":
+                for a in info["args"]:
+                    note(a, top=False)
+            elif info["kind"] == "return":
+                note(info["value"], top=False)
+            elif info["kind"] == "switch":
+                note(info["discr"], top=False)
+        for node, kind, v in s.return_kinds(g):
+            note(v, top=False)
+        for b, info in an.calls():
+            callee = info["callee"] or ""
+            cf = ctx.F.fns.get(callee)
+            is_res = False
+            if cf is not None and cf.output is not None:
+                is_res = cf.output["s"].startswith(("std::result::Result", "core::result::Result"))
+            elif callee.startswith(("heed::database::", "heed::txn::", "heed::env::", "std::fs::", "mmap_append::")):
+                dl = an.term[b]["dest"]
+                if dl[0] == "local":
+                    is_res = g.locals[dl[1]]["ty"]["s"].startswith(("std::result::Result", "core::result::Result"))
+            if not is_res:
+                continue
+            n += 1
+            V = info["value"]
+            if V in uses or V in arg_uses:
+                continue
+            s.add("S-ERR", g, "dropped-result", s.nice(callee).split("::", 1)[-1], info["sp"], VIOLATION,
+                  "the Result of this call is discarded: a failure would not stop the operation", b)
+    ctx.instances["S-ERR.result-call-sites under %s" % root.split("::")[-1]] = n
+    if not any(o.rule == "S-ERR" and o.verdict == VIOLATION for o in ctx.obs):
+        s.add("S-ERR", rootfn, "results-propagated", root.split("::")[-1], rootfn.sp, PROVED,
+              "all %d Result-returning calls in the closure are propagated, matched or returned" % n)
+    return n
